@@ -245,11 +245,28 @@ func genProtocol() *leanFile {
 	l.cmp("replRespOffsetCmp", partitionGo, "partition.handleReplicationResponse", "offset ? p.log.NewestOffset()+1", 0, "lt")
 	hwPos := callPositions(partitionGo, "partition.handleReplicationResponse", "p.log.SetHighWatermark")
 	apPos := callPositions(partitionGo, "partition.handleReplicationResponse", "p.log.AppendMessageSet")
-	hwFirst := len(hwPos) == 1 && len(apPos) == 1 && hwPos[0] < apPos[0]
-	if len(hwPos) != 1 || len(apPos) != 1 {
+	hwFirst := len(hwPos) >= 1 && len(apPos) == 1 && hwPos[0] < apPos[0]
+	// since fix ba85aea: SetHighWatermark(minInt64(hw, NewestOffset())) before AND after the append
+	capped := len(hwPos) == 2 && len(apPos) == 1 && hwPos[0] < apPos[0] && apPos[0] < hwPos[1]
+	if capped {
+		f := load(partitionGo)
+		if fd := f.fn("partition.handleReplicationResponse"); fd != nil {
+			n := 0
+			ast.Inspect(fd.Body, func(nd ast.Node) bool {
+				if ce, ok := nd.(*ast.CallExpr); ok && nows(f.src(ce.Fun)) == "p.log.SetHighWatermark" && len(ce.Args) == 1 &&
+					nows(f.src(ce.Args[0])) == "minInt64(hw,p.log.NewestOffset())" {
+					n++
+				}
+				return true
+			})
+			capped = n == 2
+		}
+	}
+	if !(len(hwPos) == 1 && len(apPos) == 1) && !capped {
 		lost = append(lost, partitionGo+":partition.handleReplicationResponse: SetHighWatermark/AppendMessageSet calls")
 	}
 	l.def("hwBeforeAppend", "Bool", fmt.Sprint(hwFirst), "handleReplicationResponse adopts the leader's HW before appending the data")
+	l.def("followerHwCapped", "Bool", fmt.Sprint(capped), "the adopted HW is capped at the follower's newest offset, before and after the append")
 	l.argText("fetchOffsetArg", partitionGo, "partition.sendReplicationRequest", "proto.MarshalReplicationRequest", 0, "")
 	l.addend("truncAddend", partitionGo, "partition.truncateUncommitted", "p.log.Truncate", 0, "lastOffset", 1)
 	l.argText("reconcileEpochArg", partitionGo, "partition.truncateUncommitted", "p.sendLeaderOffsetRequest", 0, "leaderEpoch")
